@@ -4,6 +4,7 @@ package main
 // (plus three read-only shims for unexported state), and the same record decoded from the model's answer.
 
 import (
+	"regexp"
 	"crypto/x509"
 	"encoding/json"
 	"fmt"
@@ -15,7 +16,6 @@ import (
 	proxyv1alpha1 "github.com/kubewharf/kubegateway/pkg/apis/proxy/v1alpha1"
 	"github.com/kubewharf/kubegateway/pkg/clusters"
 	"github.com/kubewharf/kubegateway/pkg/clusters/features"
-	gatewayflowcontrol "github.com/kubewharf/kubegateway/pkg/flowcontrols"
 
 	mg "verifharness/matchgen"
 	"verifharness/rig"
@@ -63,10 +63,10 @@ func fcStr(fc interface{ String() string }) (s string) {
 
 func observeReal(ci *clusters.ClusterInfo, u Universe) Obs {
 	o := Obs{Policies: []string{}, Endpoints: []string{}, Schemas: []string{}, Has: []string{}, Gates: []string{}, Probes: []string{}}
-	for _, p := range clusters.VerifC11Policies(ci) {
+	for _, p := range peekPolicies(ci) {
 		o.Policies = append(o.Policies, canonPolicy(p))
 	}
-	o.Logging = string(clusters.VerifC11Logging(ci).Mode)
+	o.Logging = string(peekLogging(ci).Mode)
 	for _, ep := range ci.AllEndpoints() {
 		info, ok := ci.Endpoints.Load(ep)
 		if !ok {
@@ -76,13 +76,15 @@ func observeReal(ci *clusters.ClusterInfo, u Universe) Obs {
 		o.Endpoints = append(o.Endpoints, fmt.Sprintf("%s disabled=%v", ep, info.IstDisabled()))
 	}
 	sort.Strings(o.Endpoints)
-	lim := clusters.VerifC11Limiter(ci)
+	lim := peekLimiter(ci)
 	for _, n := range u.Names {
 		o.Schemas = append(o.Schemas, n+" => "+fcStr(ci.GetFlowSchema(n)))
-		_, ok := lim.Load(n)
-		o.Has = append(o.Has, fmt.Sprintf("%s => %v", n, ok))
+		if lim != nil {
+			_, ok := lim.Load(n)
+			o.Has = append(o.Has, fmt.Sprintf("%s => %v", n, ok))
+		}
 	}
-	o.Mode = gatewayflowcontrol.VerifC11Mode(lim)
+	o.Mode, _ = peekMode(lim)
 	for _, g := range gateNames {
 		o.Gates = append(o.Gates, fmt.Sprintf("%s=%v", g, ci.FeatureEnabled(g)))
 	}
@@ -107,7 +109,7 @@ func observeReal(ci *clusters.ClusterInfo, u Universe) Obs {
 			o.Probes = append(o.Probes, "no-match")
 			continue
 		}
-		ups := append([]string{}, clusters.VerifC11PickerUpstreams(picker)...)
+		ups, _ := peekUpstreams(picker)
 		sort.Strings(ups)
 		o.Probes = append(o.Probes, fmt.Sprintf("fcName=%s fc=%s upstreams=%s log=%v", picker.FlowControlName(), fcStr(picker.FlowControl()),
 			strings.Join(ups, ","), picker.EnableLog()))
@@ -211,18 +213,30 @@ func obsDiff(a, b Obs, withProbes bool) []string {
 			d = append(d, name)
 		}
 	}
-	cmp("policies", a.Policies, b.Policies)
-	cmp("logging", a.Logging, b.Logging)
+	if havePolicies {
+		cmp("policies", a.Policies, b.Policies)
+	}
+	if haveLogging {
+		cmp("logging", a.Logging, b.Logging)
+	}
 	cmp("endpoints", a.Endpoints, b.Endpoints)
 	cmp("schemas", a.Schemas, b.Schemas)
-	cmp("has-schema", a.Has, b.Has)
-	cmp("limiter-mode", a.Mode, b.Mode)
+	if haveLimiter {
+		cmp("has-schema", a.Has, b.Has)
+	}
+	if haveMode {
+		cmp("limiter-mode", a.Mode, b.Mode)
+	}
 	cmp("gates", a.Gates, b.Gates)
 	cmp("tls", a.TLS, b.TLS)
 	cmp("verify-options", a.Verify, b.Verify)
 	cmp("server-names", a.ServerNames, b.ServerNames)
 	if withProbes {
-		cmp("routing-probes", a.Probes, b.Probes)
+		if haveUpstreams {
+			cmp("routing-probes", a.Probes, b.Probes)
+		} else {
+			cmp("routing-probes", stripUpstreams(a.Probes), stripUpstreams(b.Probes))
+		}
 	}
 	return d
 }
@@ -245,4 +259,15 @@ func realGates(v string) string {
 
 func featuresDefaultCopy() featuregate.MutableFeatureGate {
 	return features.DefaultMutableFeatureGate.DeepCopy()
+}
+
+var reUpstreams = regexp.MustCompile(` upstreams=[^ ]*`)
+
+// stripUpstreams removes the candidate-endpoint list from probe renderings (when it cannot be observed).
+func stripUpstreams(l []string) []string {
+	r := make([]string, len(l))
+	for i, s := range l {
+		r[i] = reUpstreams.ReplaceAllString(s, "")
+	}
+	return r
 }
